@@ -316,6 +316,10 @@ nni_http_req_parse(nng_http *conn, void *buf, size_t n, size_t *lenp)
 			req->data.parsed = true;
 			rv               = http_req_parse_line(conn, line);
 		}
+
+		if (rv != 0) {
+			break;
+		}
 	}
 
 	if (rv != NNG_EAGAIN) {
